@@ -20,7 +20,7 @@ TRUSTED_BASE = [
 ]
 ASSUMPTIONS = [
     "compression libraries, crc32fast are abstract: the crate's code around them is modelled and proved under contracts (CodecLoop.v, DecodeLoop.v: see C05/C17, hooks H3/H4); framing and interoperability of compressed blocks are checked on the crate (reference parser + independent decoders + apache-avro), not proved",
-    "apache-avro limitations excluded from the comparison: zero-byte datums in compressed blocks, map entry order, leading-dot / empty-namespace spellings"
+    "apache-avro limitations excluded from the comparison: zero-byte datums in compressed blocks, map entry order, leading-dot / empty-namespace spellings, and files whose embedded schema (as re-spelled by apache-avro's writer: a reference by short name where the enclosing namespace differs) is rejected by the MODEL's reader + parser as well"
 ]
 
 def clip(line, n=1200000):
@@ -324,6 +324,17 @@ def run(ctx):
         pr = cont.parse_cr(res)
         dist[origin] += 1
         if pr.get("open_err") or "items" not in pr:
+            if origin.startswith("apache-writer/"):
+                # apache-avro re-spells the schema it embeds, and its writer is known to spell a reference by its short name where the
+                # enclosing namespace differs: such a file is NOT conforming. The MODEL's reader + parser judge the embedded text:
+                # when they reject it too, the file is an apache-avro limitation, not a finding.
+                import containercodec as CC
+                w = CC.walk(C.unhex(line.split(" ")[1]))
+                if w is not None and w.get("json") is not None:
+                    rm = C.run_parallel(C.AVROMODEL, ["parse (text %s)" % C.hx(w["json"])])[0]
+                    if not rm.startswith("(ok"):
+                        dist["apache-write-skipped/embedded-schema-invalid-per-model"] += 1
+                        continue
             violations.append({"impl_case": line, "what": "a conforming file (%s) was rejected" % origin, "impl": res[:300]})
             continue
         ok, k, why = cont.values_prefix_then_eof(pr["items"], exp, True)
